@@ -1549,6 +1549,15 @@ func (r *Raft) appendEntries(rpc RPC, a *AppendEntriesRequest) {
 					r.logger.Error("failed to clear log suffix", "error", err)
 					return
 				}
+				// The suffix is gone, so our last log entry is now the one right
+				// before it: the previous entry of this request, or the last of the
+				// entries we skipped as duplicates. Record that immediately; if the
+				// append below fails we must not keep reporting the deleted tail.
+				if i > 0 {
+					r.setLastLog(a.Entries[i-1].Index, a.Entries[i-1].Term)
+				} else {
+					r.setLastLog(a.PrevLogEntry, a.PrevLogTerm)
+				}
 				if entry.Index <= r.configurations.latestIndex {
 					r.setLatestConfiguration(r.configurations.committed, r.configurations.committedIndex)
 				}
@@ -1566,8 +1575,6 @@ func (r *Raft) appendEntries(rpc RPC, a *AppendEntriesRequest) {
 			// Append the new entries
 			if err := r.logs.StoreLogs(newEntries); err != nil {
 				r.logger.Error("failed to append to logs", "error", err)
-				// TODO: leaving r.getLastLog() in the wrong
-				// state if there was a truncation above
 				return
 			}
 
